@@ -14,7 +14,7 @@ REQUIRED = ['getNBest_shape', 'plurality_shape', 'quotaSelector_refusals', 'ha_s
             'lr_shape', 'qd_shape', 'quota_pos', 'lr_rounded_quota_zero_witness',
             'getNBest_struct', 'breakSecondOrder_shape', 'copeland_shape', 'schulze_shape', 'minimax_shape',
             'positional_shape', 'positional_refusals', 'scorerOK_of_wf', 'approval_shape', 'approval_refusals',
-            'quotaSelector_shape', 'ha_refusals', 'list_tiebreaker_shape', 'alternative_threshold_shape', 'abs_threshold_shape', 'rel_threshold_shape', 'openlist_shape',
+            'quotaSelector_shape', 'ha_refusals', 'list_tiebreaker_shape', 'alternative_threshold_shape', 'input_order_shape', 'abs_threshold_shape', 'rel_threshold_shape', 'openlist_shape',
             # Lemmas/ShapeRankedT2.lean
             'kemeny_shape', 'kemeny_refusals', 'rankedpairs_shape_partial', 'rankedpairs_shape_le_two', 'rankedpairs_refusals',
             'rankedpairs_refusals_all', 'rankedpairs_short_witness', 'seatless_shape', 'seatless_smith_nonempty', 'benham_shape',
@@ -37,7 +37,7 @@ PROVED_FAMILIES = ['plurality', 'ha_d_hondt', 'ha_sainte_lague', 'ha_imperiali',
                    'condorcet_kemeny_young', 'condorcet_winner', 'smith_set', 'schwartz_set',
                    'stv_gregory_hare', 'stv_gregory_droop', 'stv_dist_gregory_droop',
                    'rel_threshold_5pc', 'rel_threshold_third', 'abs_threshold_2', 'openlist_jump_5pc', 'openlist_quota_precedence',
-                   'openlist_tiebreaker_plurality', 'threshold_alternative']
+                   'openlist_tiebreaker_plurality', 'threshold_alternative', 'aux_input_order']
 NAMES = Names(prefix='cand')
 POSITIONAL = {'positional_borda': {'s': 'Borda', 'base': 1}, 'positional_borda0': {'s': 'Borda', 'base': 0},
               'positional_dowdall': {'s': 'Dowdall'}, 'positional_geometric': {'s': 'Geometric', 'base': 2},
@@ -343,6 +343,8 @@ def model_line(case):
     if f in THRESHOLDS:
         op, t, eq = THRESHOLDS[f]
         return {'op': op, 'votes': case['prof'], 'threshold': t, 'accept_equal': eq}
+    if f == 'aux_input_order':
+        return {'op': 'input_order', 'votes': case['prof'], 'n': case['n']}
     if f == 'threshold_alternative':
         return {'op': 'seatless', 'votes': case['prof'], 'prev': None, 'members': [], 'props': [],
                 'sel': {'k': 'alt', 'parts': [{'k': 'abs', 't': '2', 'eq': True}, {'k': 'rel', 't': '1/5', 'eq': True}]}}
